@@ -363,12 +363,13 @@ def uniformGravityForce (g : V3 K) (bodies : List (GBody K)) : List (SpF K) :=
     let frc_G := smul b.mass g
     ⟨cross com_B_G frc_G, frc_G⟩
 
-/-- `Force::UniformGravityImpl::calcPotentialEnergy`: `pe -= m*(~g*com_G + zeroHeight)` -/
-def uniformGravityPE (g : V3 K) (zeroHeight : K) (bodies : List (GBody K)) : K :=
+/-- `Force::UniformGravityImpl::calcPotentialEnergy`: `pe -= m*(~g*com_G + g.norm()*zeroHeight)`; `gmag` is `g.norm()`
+(the pinned source had `+ zeroHeight` without the magnitude: finding fixed in /repo 5f9a9c23) -/
+def uniformGravityPE (g : V3 K) (gmag zeroHeight : K) (bodies : List (GBody K)) : K :=
   bodies.foldl (fun pe b =>
     let com_B_G := b.X.R.mulVec b.com
     let com_G := b.X.p + com_B_G
-    pe - b.mass * (dot g com_G + zeroHeight)) 0
+    pe - b.mass * (dot g com_G + gmag * zeroHeight)) 0
 
 /-- documented (Force.h): "A uniform gravitational force applied to every body in the system … specified by a
 vector in the Ground frame": `m g` at each body's mass centre -/
